@@ -32,9 +32,10 @@ claim("C18",
 
 claim("C14",
       "backward slices + path conditions + computer-algebra normal form of the result expression",
-      "On electrostatic_potential: the condition that zeroes a nuclear term is, in comparison normal form, `distance < "
-      "threshold_dist` with the distance proven (sympy) to be sqrt(sum((point-nucleus)^2)) and its backward slice free of "
-      "nuclear_charges (D1); every size comparison of the density matrix is against transform.shape[0] on the transform path and "
+      "On electrostatic_potential the whole return value is extracted symbolically; its per-nucleus term must be 0 exactly under "
+      "`d < threshold_dist` and +Z/d otherwise, with d proven to be sqrt(sum((point-nucleus)^2)), the drop condition free of the "
+      "charge and of any modification of the threshold (D1), and a dropped nucleus never divided by its distance (D1-DEF: no "
+      "0/0 on a nucleus); every size comparison of the density matrix is against transform.shape[0] on the transform path and "
       "against the AO count only without one (D2, path conditions); the returned expression equals +sum Z/d (thresholded) - sum "
       "P*I as a symbolic identity given point_charge_integral(q) = -q*I (SIGN); basis, points, transform are forwarded and the "
       "probe charges are -1 (FWD). Holds for all charges, thresholds and transformations because nothing is sampled. The values "
@@ -80,6 +81,22 @@ claim("C11",
       "indices (G1). Equality of independently computed orientations is numerical and not decided.",
       "Trusted: as C09; Hermiticity of momentum-type operators in exact arithmetic.",
       "DESIGN.md 2.1, 2.8, 3 (C11)")
+
+claim("C05",
+      "closed-form extraction + computer algebra against the calculus definition; guard/domain and dispatch rules",
+      "The direct back-end's hand-expanded first/second derivative factors are extracted (elementwise abstraction, masked stores -> "
+      "Piecewise) as expressions in a SYMBOLIC angular exponent n and proven equal to d/dx and d2/dx2 of x^n exp(-a x^2) for n=0, "
+      "n=1 and symbolic n=N+k (N>=0), which together cover every n; in the branch selected for each n no power of the coordinate "
+      "difference can have a negative exponent (exact values on centres/planes); its order classes {<=0,==1,==2} are disjoint, "
+      "gap-free and routed to the matching helper for every combination. The general back-end's Leibniz/Hermite sum is partially "
+      "evaluated with constant formula parameters (orders 0..4 x n 0..6, the term index enumerated; x and a symbolic) and equals the "
+      "same definition, with no surviving negative power. The direct back-end is dominated by a raising guard that excludes exactly "
+      "the orders its classes do not cover, the deriv_type dispatch ends in a raising else, both back-ends receive the shell's own "
+      "attributes, and the wrappers forward orders/deriv_type on all branches. Both back-ends equal the definition, hence each "
+      "other. Machine-precision accuracy is not decided; the general back-end claim is bounded by the enumerated (m, n).",
+      "Trusted: sympy diff/simplify; scipy comb/perm/eval_hermite are the binomial, falling factorial and Hermite polynomial; "
+      "`if mask.any()` guards analysed as taken (component array of a full shell).",
+      "DESIGN.md 2.4, 2.6, 3 (C05)")
 
 na("C10", "quantifies over the numerical values of the transformation matrices (harmonicity, orthonormality, phases for every l<=10); "
           "no clause is visible in the shape of the code - deciding it means computing the matrices, which is not static analysis")
